@@ -149,6 +149,72 @@ OBLIGATIONS['C15'] = [
     ('proofs::int_narrowing', 'kani'), ('proofs::int_widening', 'kani'),
 ]
 
+OBLIGATIONS['C12'] = [
+    # decode: acceptance predicates contain pairwise-distinct labels (iff), at every nesting level through the recursive relations
+    ('header::Header::from_cbor_value_nested', 'body'), ('header::Header::from_cbor_value', 'body'), ('header::lemma_hdr_final', 'lemma'), ('header::lemma_hdr_inv_step', 'lemma'),
+    ('key::CoseKey::from_cbor_value', 'body'), ('cwt::ClaimsSet::from_cbor_value', 'body'),
+    ('header::ProtectedHeader::from_cbor_bstr_nested', 'body'), ('sign::CoseSignature::from_cbor_value_nested', 'body'),
+    # the sets behave as sets because the order is lawful
+    ('common::lemma_label_obeys_cmp', 'lemma'), ('common::Label::cmp', 'body'), ('common::Label::from_cbor_value', 'body'),
+    # encode: success iff no repeated / typed-clashing extra label; then keys pairwise distinct
+    ('header::Header::to_cbor_value', 'body'), ('header::lemma_hdr_cv_keys_distinct', 'lemma'), ('header::lemma_typed_prefix_keys', 'lemma'), ('header::lemma_typed_labels', 'lemma'),
+    ('key::CoseKey::to_cbor_value', 'body'), ('key::lemma_key_enc_labels_distinct', 'lemma'), ('key::lemma_key_head_labels', 'lemma'),
+    ('cwt::ClaimsSet::to_cbor_value', 'body'),
+    # builders refuse reserved labels
+    ('header::HeaderBuilder::value', 'body'), ('key::CoseKeyBuilder::param', 'body'), ('cwt::ClaimsSetBuilder::claim', 'body'), ('cwt::ClaimsSetBuilder::private_claim', 'body'),
+    ('header::HeaderBuilder::value__nec_reserved', 'nec'), ('key::CoseKeyBuilder::param__nec_reserved', 'nec'),
+    ('cwt::ClaimsSetBuilder::claim__nec_reserved', 'nec'), ('cwt::ClaimsSetBuilder::private_claim__nec_private', 'nec'),
+]
+
+OBLIGATIONS['C20'] = [
+    ('key::CoseKey::canonicalize', 'body'), ('key::lemma_canonical_lex_ascending', 'lemma'), ('key::lemma_typed_before_extra', 'lemma'), ('key::lemma_enc_labels', 'lemma'),
+    ('key::CoseKey::to_cbor_value', 'body'), ('key::CoseKey::from_cbor_value', 'body'), ('key::lemma_key_roundtrip', 'lemma'),
+    ('common::Label::cmp', 'body'), ('common::Label::cmp_canonical', 'body'), ('common::lemma_label_cmp_laws', 'lemma'),
+    ('vcbor::lemma_label_order_is_encoding_order', 'lemma'), ('vcbor::lemma_cmp_canonical_is_len_first', 'lemma'),
+]
+# C01: every exec function on the decode path and every follow-up helper is verified panic-free and terminating for ALL inputs,
+# with no precondition (decoders, encoders, Clone-free helpers) or only the documented ones (index, payload/ciphertext, context)
+OBLIGATIONS['C01'] = [
+    ('common::read_to_value', 'body'), ('common::CborSerializable::*', 'body'), ('common::TaggedCborSerializable::*', 'body'),
+    ('value::Value::*', 'body'), ('util::cbor_type_error', 'body'),
+    ('common::*::from_cbor_value', 'body'), ('common::*::to_cbor_value', 'body'), ('common::*::cmp', 'body'),
+    ('header::Header::*', 'body'), ('header::ProtectedHeader::*', 'body'),
+    ('sign::CoseSign*::from_cbor_value*', 'body'), ('sign::CoseSign*::to_cbor_value', 'body'), ('sign::CoseSign*::tbs_*', 'body'), ('sign::CoseSign*::verify_*', 'body'), ('sign::sig_structure_data', 'body'),
+    ('mac::CoseMac*::from_cbor_value', 'body'), ('mac::CoseMac*::to_cbor_value', 'body'), ('mac::CoseMac*::tbm', 'body'), ('mac::CoseMac*::verify_tag', 'body'), ('mac::mac_structure_data', 'body'),
+    ('encrypt::Cose*::from_cbor_value', 'body'), ('encrypt::Cose*::to_cbor_value', 'body'), ('encrypt::Cose*::decrypt', 'body'), ('encrypt::enc_structure_data', 'body'),
+    ('key::CoseKey*::from_cbor_value', 'body'), ('key::CoseKey*::to_cbor_value', 'body'), ('key::CoseKey::canonicalize', 'body'),
+    ('context::*::from_cbor_value', 'body'), ('context::*::to_cbor_value', 'body'),
+    ('cwt::*::from_cbor_value', 'body'), ('cwt::*::to_cbor_value', 'body'),
+    ('vstubs::check_*', 'body'),
+    ('vlemmas::lemma_decoded_protected_is_encodable', 'lemma'), ('vlemmas::lemma_decoded_messages_meet_helper_preconditions', 'lemma'), ('vlemmas::lemma_nesting_limit', 'lemma'),
+]
+# C11: every encoder is verified against a functional data-model spec X_cv(self) (success iff X_encodable(self));
+# byte level through to_vec/to_tagged_vec (enc(vv(v))) and S1 (definite lengths, shortest heads)
+OBLIGATIONS['C11'] = [
+    ('*::to_cbor_value', 'body'), ('header::Header::is_empty', 'body'), ('header::ProtectedHeader::is_empty', 'body'), ('header::ProtectedHeader::cbor_bstr', 'body'),
+    ('common::CborSerializable::to_vec', 'body'), ('common::TaggedCborSerializable::to_tagged_vec', 'body'),
+    ('header::lemma_hdr_step', 'lemma'), ('header::lemma_hdr_skip', 'lemma'), ('header::lemma_hdr_start', 'lemma'), ('header::lemma_crit_cv', 'lemma'), ('header::lemma_csigs_cv', 'lemma'),
+    ('header::lemma_rest_entries_push', 'lemma'), ('header::lemma_hdr_cv_keys_distinct', 'lemma'),
+    ('cwt::lemma_claims_step', 'lemma'), ('cwt::lemma_claims_skip', 'lemma'), ('cwt::lemma_claims_rest_push', 'lemma'),
+    ('encrypt::lemma_recipients_array', 'lemma'), ('vstubs::check_*to_cbor*', 'body'),
+    ('key::lemma_key_roundtrip', 'lemma'), ('key::lemma_enc_labels', 'lemma'), ('key::lemma_params_of_enc', 'lemma'),
+    ('vstructs::lemma_structure_bytes', 'lemma'),
+]
+# C07: decode contracts (iff + result relations) and encode contracts (functional) of every type, the lemmas that every decoded
+# value encodes successfully, the CoseKey decode-encode-decode lemma, and protected bytes kept (C02)
+OBLIGATIONS['C07'] = [
+    ('*::from_cbor_value', 'body'), ('*::from_cbor_value_nested', 'body'), ('*::to_cbor_value', 'body'),
+    ('header::ProtectedHeader::from_cbor_bstr_nested', 'body'), ('header::ProtectedHeader::cbor_bstr', 'body'),
+    ('common::CborSerializable::*', 'body'), ('common::TaggedCborSerializable::*', 'body'),
+    ('header::lemma_decoded_header_encodable', 'lemma'), ('header::lemma_decoded_sig_encodable', 'lemma'), ('header::lemma_rest_of_props', 'lemma'),
+    ('vlemmas::lemma_decoded_messages_encodable', 'lemma'), ('vlemmas::lemma_decoded_recipient_encodable', 'lemma'), ('vlemmas::lemma_decoded_recipients_encodable', 'lemma'),
+    ('vlemmas::lemma_decoded_protected_is_encodable', 'lemma'),
+    ('key::lemma_key_roundtrip', 'lemma'), ('key::lemma_enc_labels', 'lemma'), ('key::lemma_params_of_enc', 'lemma'),
+    ('vstubs::check_*', 'body'),
+]
+# bounded stand-ins run on the real crate (never counted as discharged): property -> replay subcommands
+MEASUREMENTS = {'C01': ['c01-measure']}
+
 # items that must FAIL verification (vacuity / soundness canaries), checked on every run
 MUST_FAIL = ['vcanary::canary_false', 'vcanary::canary_axioms']
 
